@@ -4,6 +4,7 @@ PROPS["C06"] = {
     "assumptions": ["TCP endpoint model in the engine (engine/intrinsics_net.go)", "goroutines pre-empt only at blocking operations"],
     "groups": [
         {"pkg": "destination", "hdir": "destination", "native_optional": True, "specs": [spec("C06/steady", "VerifC06Steady")]},
+        {"pkg": "destination", "hdir": "destination", "native_optional": True, "specs": [spec("C06/steady/preemptions<=1", "VerifC06Steady", {"preemptions": "1"}, tier="thorough")]},
     ],
 }
 PROPS["C07"] = {
